@@ -179,3 +179,5 @@ def check(ctx):
                "the destination path flows into dumps", node=n)
     from .paths import check_save_load_path
     check_save_load_path(ctx)
+    from .xmlfmt import check_xml_output_validated
+    check_xml_output_validated(ctx, an, model)
